@@ -29,6 +29,9 @@ edges = [2147483647, 2147483648, 4294967296, 9223372036854775807, 92233720368547
 quick_edges = 10
 # strings holding the character U+0000 (written as an escape), which C interfaces cannot carry
 nul_strings = [['"' + U + '0000' + '"'], ['"1' + U + '00002"']]
+# expressions whose value is not a finite number on this implementation (recorded for C02): as an ARGUMENT such a value
+# passes range tests like (0..60).contains(x)
+non_finite = [['decimal', '(', '1.5', ',', '6175', ')'], ['10', '**', '6144', '*', '10'], ['-', '10', '**', '6144', '*', '10']]
 fillers = [['[', '1', ',', '2', ',', '3', ']'], ['"abc"'], ['2'], ['@', '"2021-01-01"']]
 # offsets for time(h, m, s, offset): inside, at and beyond what a zone offset can be
 offsets = ['PT14H', 'PT14H1S', 'PT18H', 'PT23H59M59S', 'P1D', '-P1D', 'PT24H1S', 'P2D', '-PT23H59M59S', 'P1000D', '-PT18H', 'PT0.5S']
@@ -58,6 +61,16 @@ edge_special += [many(['matches', '(', '"aaaaa"', ',', '"^a{"', '+', 'string', '
                  many(['string', '(', 'i', '/', '7', ')']),
                  many(['{', 'a', ':', 'i', '}', '.', 'a']),
                  many(['(', 'function', '(', 'u', ')', 'u', '+', 'i', ')', '(', '1', ')'])]
+# durations at the ends of the 64-bit month count and of the 32-bit second count of a zone offset, combined and printed
+ym_edges = ['P9223372036854775807M', '-P9223372036854775807M', 'P768614336404564650Y7M', '-P768614336404564650Y7M']
+for a in ym_edges:
+    A = ['duration', '(', '"%s"' % a, ')']
+    for b in ['P1M', '-P1M', 'P1Y']:
+        B = ['duration', '(', '"%s"' % b, ')']
+        for op in ['+', '-']:
+            edge_special += [['string', '('] + A + [op] + B + [')'], ['('] + A + [op] + B + [')', '.', 'years'], A + [op] + B + ['<'] + A]
+    edge_special += [['string', '(', '-'] + A + [')'], ['string', '('] + A + ['*', '2', ')'], ['abs', '('] + A + [')'], ['string', '('] + A + ['/', '0.5', ')']]
+offsets += ['P24855DT3H14M7S', 'P24855DT3H14M8S', '-P24855DT3H14M8S', '-P24855DT3H14M9S', 'P49710DT6H28M16S']
 for d in offsets:
     T = ['time', '(', '10', ',', '0', ',', '0', ',', 'duration', '(', '"%s"' % d, ')', ')']
     edge_special += [T, T + ['='] + T, T + ['<'] + T, T + ['-'] + T, ['string', '('] + T + [')'], T + ['.', 'time offset'], T + ['.', 'timezone'],
@@ -165,7 +178,7 @@ BifDocs == {<<f, "(", ")">> : f \\in Bifs}
 ''')
 out.append('Edges == <<' + ', '.join(seq(lit(e)) for e in edges) + '>>\n')
 out.append('QuickEdges == %d\n' % quick_edges)
-out.append('NulStrings == {' + ', '.join(seq(a) for a in nul_strings) + '}\n')
+out.append('NulStrings == {' + ', '.join(seq(a) for a in nul_strings + non_finite) + '}\n')
 out.append('Fillers == {' + ', '.join(seq(a) for a in fillers) + '}\n')
 out.append('''\\* every built-in function with a machine-integer edge (or a string holding U+0000) in every argument position, the other
 \\* positions holding a list, a string, a number or a date (first position) and the number 2 (the others)
